@@ -873,3 +873,21 @@ R.nominal_methods["spec:OAS3WithHeaderDefinitions"] = {
     "_get_response_definitions": lambda it, obj, a, k: it.ghost.__setitem__("selected", it.path.choose(
         [(None, True), ((["scope"], {"description": "no headers"}), True), ((["scope", "nested"], {"headers": {"X-Rate-Limit": {"schema": {"type": "integer"}}}}), True), ((["scope"], {"headers": {}}), True)], "selected-definition"))
     or it.ghost["selected"]}
+
+
+# ------------------------------------------------------------------------------------------------- is_unexpected_http_status_case: only the "undocumented HTTP method" probes are exempt from the response checks
+META4 = "schemathesis.generation.meta:"
+_PhaseData4 = lambda: OneOf(Obj(META4 + "CoveragePhaseData", description=Choice("Unspecified HTTP method: PUT", "Maximum value", "Missing `q` at query", ""), location=NoneT, parameter=NoneT, parameter_location=NoneT),
+                            Obj(META4 + "GeneratePhaseData"), Obj(META4 + "ExplicitPhaseData"))
+R.contract(
+    CK + "is_unexpected_http_status_case",
+    variant="definition",
+    prop="C04",
+    args={"case": Obj("spec:ProbeCase", meta=OneOf(NoneT, Obj("spec:ProbeMeta", phase=Obj("spec:ProbePhase", data=_PhaseData4()))))},
+    raises=[],
+    ensures={
+        "exempt_iff_the_case_probes_an_undocumented_method": "result is (case.meta is not None and is_instance(case.meta.phase.data, 'CoveragePhaseData') and startswith(case.meta.phase.data.description, 'Unspecified HTTP method'))",
+    },
+    replayable=False,
+)
+R.spec_funcs["startswith"] = lambda it, s, prefix: s.startswith(prefix) if isinstance(s, str) else it.call(it.getattr(s, "startswith"), [prefix], {})
